@@ -5,7 +5,7 @@ from ..core import Job, Undecided, native_replay_generic
 
 I32, I64, F32, F64 = W.I32, W.I64, W.F32, W.F64
 F32BITS, F64BITS = 0x7FA00001, 0xFFF0000000000123      # NaN payloads as global initialisers
-SEGS = [(8, b"hello"), (10, b"XY"), (65533, b"end")]     # overlapping, in order, and one at the very end of the page
+SEGS = [(8, b"hello"), (9, b"\x00\x00"), (10, b"XY"), (65533, b"end")]     # overlapping, in order (a segment of zero bytes overwrites earlier data like any other), and one at the very end of the page
 
 
 def build_module(imported_memory, with_start, shared=False):
@@ -101,6 +101,7 @@ static void host_setup(U32 base, U64 big) {
 static U8 expected_byte(U32 k, U32 base) {
     U8 v = 0;
     if (k >= 8 && k < 13) v = (U8)"hello"[k - 8];
+    if (k >= 9 && k < 11) v = 0;
     if (k >= 10 && k < 12) v = (U8)"XY"[k - 10];
     if (k >= 65533) v = (U8)"end"[k - 65533];
     if (k == base) v = 'Z';
